@@ -13,7 +13,7 @@
 import VModel.StateRes
 import VProofs.StateResSpecUnique
 import VProofs.StateResSpecExample
-import VProofs.StateResSpecV1b
+import VProofs.StateResSpecV1c
 import VProofs.StateResSpecExecResolve
 namespace V.C10
 open V V.StateRes V.StateResSpec
@@ -289,47 +289,44 @@ theorem v1Order_eq_spec (sha : ID → Bytes) (block : List Event) : IsV1Order sh
   sortV1_isV1Order sha block
 
 theorem v1Order_unique {sha : ID → Bytes} {block o₁ o₂ : List Event}
-    (hk : ∀ a ∈ block, ∀ b ∈ block, v1Key sha a = v1Key sha b → a = b) (h1 : IsV1Order sha block o₁)
+    (hk : ∀ a ∈ block, ∀ b ∈ block, V.StateResSpec.v1Key sha a = V.StateResSpec.v1Key sha b → a = b) (h1 : IsV1Order sha block o₁)
     (h2 : IsV1Order sha block o₂) : o₁ = o₂ := IsV1Order.unique hk h1 h2
 
 /-- **Version 1.** `ResolveStateConflicts` resolves the conflicted keys phase by phase as defined (R1): auth blocks in
-    the order create, power_levels, join_rules, third_party_invite, member (winners registered only after their phase),
-    then the rest; no hypotheses. -/
+    the order create, power_levels, join_rules, third_party_invite, member (winners registered only after their phase,
+    each block leaving the registered events as it found them), then the rest; no hypotheses. -/
 theorem resolveV1_eq_spec (sha : ID → Bytes) (conflicted auth : List Event) :
     V1Resolves sha conflicted auth (resolveV1 sha conflicted auth) :=
   V.StateResSpec.resolveV1_eq_spec sha conflicted auth
 
 /-- … and the definition determines the result when no two conflicted events tie on (depth, SHA-1) -/
 theorem resolveV1_unique {sha : ID → Bytes} {conflicted auth r : List Event}
-    (hk : ∀ a ∈ conflicted, ∀ b ∈ conflicted, v1Key sha a = v1Key sha b → a = b) (h : V1Resolves sha conflicted auth r) :
+    (hk : ∀ a ∈ conflicted, ∀ b ∈ conflicted, V.StateResSpec.v1Key sha a = V.StateResSpec.v1Key sha b → a = b) (h : V1Resolves sha conflicted auth r) :
     r = resolveV1 sha conflicted auth := V.StateResSpec.resolveV1_unique hk h
 
 example : ∀ a ∈ [Example.eA, Example.eB], ∀ b ∈ [Example.eA, Example.eB],
-    v1Key (fun id => id) a = v1Key (fun id => id) b → a = b := by
+    V.StateResSpec.v1Key (fun id => id) a = V.StateResSpec.v1Key (fun id => id) b → a = b := by
   intro a ha b hb h
   have hid : a.eventID = b.eventID := congrArg V1Key.sha1 h
   exact Example.id_inj (by simp at ha; rcases ha with rfl | rfl <;> simp)
     (by simp at hb; rcases hb with rfl | rfl <;> simp) hid
 
-/-- FINDING (reproduced on the Go code, op line in the report): for version 1 the result depends on the ORDER in which the
-    conflicted keys are presented — which `splitConflictedUnconflicted` takes from a Go map iteration — because
-    `resolveAuthBlock` clears the winner's slot (dropping the supplied auth event in it) until its phase is over.  So
-    "the state version 1 defines" is a function of the conflicted LIST (R1, as `V1Resolves` states it), not of the
-    conflicted SET: the full-strength statement `∀ l₁ l₂, l₁.Perm l₂ → resolveV1 sha l₁ auth` and `resolveV1 sha l₂ auth`
-    have the same events` is false: -/
-theorem v1_result_depends_on_block_order :
-    ∃ (sha : ID → Bytes) (l₁ l₂ auth : List Event), l₁.Perm l₂ ∧
-      ¬ (∀ id, id ∈ (resolveV1 sha l₁ auth).map (·.eventID) ↔ id ∈ (resolveV1 sha l₂ auth).map (·.eventID)) := by
-  refine ⟨fun id => id, [Example.vA1, Example.vA2, Example.vB1, Example.vB2], [Example.vB1, Example.vB2, Example.vA1, Example.vA2],
-    Example.vAuth, ?_, ?_⟩
-  · exact (List.perm_append_comm (l₁ := [Example.vA1, Example.vA2]) (l₂ := [Example.vB1, Example.vB2]))
-  · intro h
-    have h1 := congrArg Prod.fst Example.v1_order_dependent
-    have h2 := congrArg Prod.snd Example.v1_order_dependent
-    simp only at h1 h2
-    have := (h b!"$B1:h").mp (by rw [h1]; decide)
-    rw [h2] at this
-    revert this; decide
+/-- Version 1 is independent of the order in which the conflicted keys are presented (which
+    `splitConflictedUnconflicted` takes from a Go map iteration): every block leaves the registered auth events as it
+    found them (`afterBlock`), so two runs of the DEFINITION on two presentations of the same conflicted events pick the
+    same events.  (Before the fix of `resolveAuthBlock` — it used to clear the winner's slot until the end of the phase,
+    dropping the supplied auth event in it — this was false, with a failing input reproduced on the Go code; that input
+    is now `Example.v1_former_counterexample`.)  `P1`: one supplied auth event per slot; `hk`: no (depth, SHA-1) ties. -/
+theorem v1_result_independent_of_block_order {sha : ID → Bytes} {l₁ l₂ auth r₁ r₂ : List Event} (hp : l₁.Perm l₂)
+    (P1 : ∀ a ∈ auth, ∀ b ∈ auth, a.stateKey.isSome → V.StateRes.keyOf a = V.StateRes.keyOf b → b.stateKey.isSome → a = b)
+    (hk : ∀ a ∈ l₁, ∀ b ∈ l₁, V.StateResSpec.v1Key sha a = V.StateResSpec.v1Key sha b → a = b)
+    (h1 : V1Resolves sha l₁ auth r₁) (h2 : V1Resolves sha l₂ auth r₂) : r₁.Perm r₂ :=
+  V1Resolves.perm_invariant hp P1 hk h1 h2
+
+/-- the former failing input: both presentations now resolve to the same events -/
+example : ((resolveV1 (fun id => id) [Example.vA1, Example.vA2, Example.vB1, Example.vB2] Example.vAuth).map (·.eventID),
+     (resolveV1 (fun id => id) [Example.vB1, Example.vB2, Example.vA1, Example.vA2] Example.vAuth).map (·.eventID)) =
+      ([b!"$A2:h", b!"$B2:h"], [b!"$B2:h", b!"$A2:h"]) := Example.v1_former_counterexample
 
 /-! ## 8 (continued). The entry point returns the defined state -/
 
